@@ -31,8 +31,8 @@ TRUSTED_BASE = [
 ASSUMPTIONS = [
     'inputs are ASCII; no backslash-newline, no #include/#if (C10), no directives inside macro arguments (undefined behaviour)',
     'the macro table is a dictionary (C17)',
-    'where C11 6.10.3.4p4 leaves nested replacement unspecified, and for the GNU `, ## __VA_ARGS__` pre-expansion question, chibicc and gcc '
-    'are not compared',
+    'where C11 6.10.3.4p4 leaves nested replacement unspecified, for the GNU `, ## __VA_ARGS__` pre-expansion question, and for '
+    '__VA_OPT__ with a variable argument that expands to nothing (not C11; C2x drafts differ), chibicc and gcc are not compared',
 ]
 KNOWN_ID = 'C09-placemarker'
 KNOWN_BS = 'C09-stringize-backslash-outside-literal'
@@ -380,6 +380,9 @@ def oracle_verdict(c):
         return ('inconclusive', 'GNU `, ## __VA_ARGS__` has no C11 text (gcc keeps the comma for an empty-but-present variable argument and does not pre-expand)')
     sf = flat(S)
     spec_agrees_gcc = (sf is not None and gf is not None and sf == gf) or (sf is None and gf is None and S[0] == 'err')
+    if S[0] == 'ok' and 'v' in S[2]:
+        return ('skipped_latitude_va_opt', '__VA_OPT__ with a variable argument that has tokens which all vanish under macro replacement: '
+                'not C11, and the C2x drafts changed this point (chibicc tests the unexpanded argument, gcc 12/clang 14 the expanded one)')
     if S[0] == 'ok' and 'x' in S[2]:
         return ('inconclusive', 'C11 6.10.3.4p4: an invocation takes its arguments from beyond the replacement list it starts in (unspecified)')
     if not spec_agrees_gcc:
@@ -388,7 +391,7 @@ def oracle_verdict(c):
 
 def spec_vs_gcc(c):
     G, S = c['G'], c['S']
-    if S[0] == 'ok' and 'x' in S[2]:
+    if S[0] == 'ok' and ('x' in S[2] or 'v' in S[2]):
         return None
     if re.search(r',\s*##', c['text']):
         return None
@@ -703,6 +706,8 @@ BATTERY = [
     '#define A 1\nA\n#undef A\nA\n#define A 2\nA\n#undef B\n#define f(x) x\n#undef f\nf(1)\n',
     # named variadic (GNU)
     '#define f(x, args...) <x|args>\nf(1) f(1,2) f(1,2,3)\n',
+    # latitude: __VA_OPT__ with an argument that expands to nothing (counted, not compared)
+    '#define EMP\n#define F(...) f(0 __VA_OPT__(,) __VA_ARGS__)\nF(EMP) F() F(1)\n',
     # null directive
     'a\n#\nb\n# \nc\n',
 ]
@@ -815,6 +820,8 @@ def process(ctx, corr, tagged, stop_after=3):
             corr.count('oracle_both_reject')
         elif v[0] == 'skipped_ub':
             corr.count('skipped_ub')
+        elif v[0] == 'skipped_latitude_va_opt':
+            corr.count('skipped_latitude_va_opt')
         elif v[0] == 'inconclusive':
             corr.count('oracle_inconclusive')
             corr.extra.setdefault('inconclusive_samples', [])
